@@ -135,15 +135,28 @@ def run(ctx):
                 tables.append(gen.table(rng, h, maxn=5, ragged=0.1 if same else 0.0))
             allh = [f for t in tables for f in t[0]]
             key = util.rand_key(rng, hdr, allow_none=same)
+            missing = None
             if not same:
-                # the key must exist in every table for the per-table sort
-                common = [f for f in hdr if all(f in t[0] for t in tables)]
-                if not common:
-                    continue
-                key = rng.choice(common)
+                # tables with different fields, or the same fields in another order: the key is a field name (possibly one
+                # that some table lacks) or None; rows may be short; `missing` fills what a table does not have
+                if rng.random() < 0.3:
+                    h2 = list(hdr)
+                    rng.shuffle(h2)
+                    tables = [gen.table(rng, h, maxn=4, ragged=0.0) for h in (hdr, h2)]
+                outh = []
+                for t in tables:
+                    for f in t[0]:
+                        if f not in outh:
+                            outh.append(f)
+                key = rng.choice([rng.choice(outh), None, tuple(rng.sample(outh, min(2, len(outh))))])
+                missing = rng.choice([None, None, 'NA', 0])
+                if rng.random() < 0.3:
+                    for t in tables:
+                        if len(t) > 1 and rng.random() < 0.5:
+                            t[rng.randrange(1, len(t))] = t[rng.randrange(1, len(t))][:rng.randrange(0, len(t[0]))]
             reverse = rng.random() < 0.4
             bs = rng.choice([None, None, 1, 2, 3])
-            mmetas.append((tables, key, reverse, bs, same))
+            mmetas.append((tables, key, reverse, bs, same, missing))
             if same:
                 try:
                     mlines.append('mergesort %s %s %s 0 %s' % (util.enc_key(key), proto.enc_bool(reverse), proto.enc_opt(bs),
@@ -154,16 +167,16 @@ def run(ctx):
                 mlines.append(None)
         mmodel = lean.run_driver([l for l in mlines if l is not None])
         it = iter(mmodel)
-        for (tables, key, reverse, bs, same), line in zip(mmetas, mlines):
+        for (tables, key, reverse, bs, same, missing), line in zip(mmetas, mlines):
             spec = next(it) if line is not None else None
-            real = util.run_show(lambda: etl.mergesort(*tables, key=key, reverse=reverse, buffersize=bs))
-            viacat = util.run_show(lambda: etl.sort(etl.cat(*tables), key, reverse=reverse))
+            real = util.run_show(lambda: etl.mergesort(*tables, key=key, reverse=reverse, buffersize=bs, missing=missing))
+            viacat = util.run_show(lambda: etl.sort(etl.cat(*tables, missing=missing), key, reverse=reverse))
             tot = sum(len(t) - 1 for t in tables)
             ctx.case(('ms', repr(tables), repr(key), reverse, bs) if tot >= 2 else None,
                      sample={'op': 'mergesort', 'tables': repr(tables), 'key': repr(key), 'reverse': reverse, 'out': real}
                      if len(ctx.samples) < 5 and tot >= 3 else None)
             ctx.count('mergesort:' + ('same-header' if same else 'different-headers'))
-            case = {'op': 'mergesort', 'tables': repr(tables), 'key': repr(key), 'reverse': reverse, 'buffersize': bs,
+            case = {'op': 'mergesort', 'tables': repr(tables), 'key': repr(key), 'reverse': reverse, 'buffersize': bs, 'missing': repr(missing),
                     'real': real, 'sort(cat)': viacat, 'spec': spec}
             if spec is not None:
                 ctx.exact(real == spec, case)
